@@ -44,7 +44,12 @@ var (
 	taskQueue            = list.New()
 	prioritizedTaskQueue = list.New()
 	queuesLock           sync.Mutex
-	queueWg              sync.WaitGroup
+
+	// queueCnt counts the executions that currently block the queue and queueFree
+	// signals that it dropped to zero. (A sync.WaitGroup must not be used here: the
+	// schedule handler adds to the count while the queue handler waits for zero.)
+	queueCnt  int32
+	queueFree = make(chan struct{}, 1)
 
 	taskSchedule = list.New()
 	scheduleLock sync.Mutex
@@ -349,7 +354,7 @@ func (t *Task) runWithLocking() {
 	}
 
 	// add to queue workgroup
-	queueWg.Add(1)
+	atomic.AddInt32(&queueCnt, 1)
 	verifEvent("tasks:spawn", t)
 
 	go t.executeWithLocking()
@@ -360,13 +365,18 @@ func (t *Task) runWithLocking() {
 		}
 		// complete queue worker (early) to allow next worker
 		verifEvent("tasks:slot-free", t)
-		queueWg.Done()
+		if atomic.AddInt32(&queueCnt, -1) == 0 {
+			select {
+			case queueFree <- struct{}{}:
+			default:
+			}
+		}
 	}()
 }
 
 func (t *Task) executeWithLocking() {
 	// start for module
-	// hint: only queueWg global var is important for scheduling, others can be set here
+	// hint: only the queueCnt global var is important for scheduling, others can be set here
 	verifEvent("pre:inc:t", t.module.Name)
 	atomic.AddInt32(t.module.taskCnt, 1)
 	verifEvent("post", t.module.Name)
@@ -505,7 +515,9 @@ func taskQueueHandler() {
 		for {
 			// wait for execution slot
 			verifEvent("tasks:qh-wait")
-			queueWg.Wait()
+			for atomic.LoadInt32(&queueCnt) > 0 {
+				<-queueFree
+			}
 
 			// check for shutdown
 			if shutdownFlag.IsSet() {
